@@ -135,6 +135,9 @@ def build_events(spec, evs, shift=0, order=None):
         idx += [i for i in range(len(events)) if i not in idx]
         events = [events[i] for i in idx]
     q = EventQueue()
+    if spec.get("queue_preused"):
+        # the queue object has been asked about a late period before (it was empty then)
+        q.get_current_events(int(spec["queue_preused"]))
     # half of the specs use add_events, the other half one add_event per event
     if spec.get("bulk_add", True):
         q.add_events(events)
@@ -209,6 +212,7 @@ class Scripted(BaseAlgorithm):
         self.shift = shift
         self.submitted = {}
         self.post = None  # called as post(self, active_sessions, answer) after the answer is fixed
+        self.probe = False  # ask interface.is_feasible about the answer and fall back to zeros
         self.malformed = None  # {"t": period, "entry": schedule entry returned once at t}
         self.malformed_done = False
         self.snapshot = None
@@ -229,6 +233,9 @@ class Scripted(BaseAlgorithm):
             out = {}
         else:
             out = materialise(self.table[(t - self.shift) % len(self.table)])
+            if self.probe and len(out) and not self.interface.is_feasible(out):
+                # a scheduler steering by the interface's feasibility answer (as in the tutorials)
+                out = {k: [0.0] * len(v) for k, v in out.items()}
         self.submitted[t] = out
         if self.post is not None:
             self.post(self, active_sessions, out)
@@ -307,7 +314,9 @@ def make_inner(sch):
 def make_scheduler(spec, observer=None, crash_at=None, shift=0):
     sch = spec["scheduler"]
     if sch["kind"] == "scripted":
-        return Scripted(sch["table"], sch.get("max_recompute"), observer, crash_at, shift)
+        a = Scripted(sch["table"], sch.get("max_recompute"), observer, crash_at, shift)
+        a.probe = bool(sch.get("probe"))
+        return a
     return Wrapped(make_inner(sch), observer, crash_at)
 
 
@@ -435,7 +444,8 @@ def event_key(e):
 
 VOLTS = st.sampled_from([120.0, 208.0, 208.0, 240.0, 277.0])
 PHASES = st.sampled_from([30.0, -90.0, 150.0, 0.0, 180.0, -120.0])
-PERIODS = st.sampled_from([1, 2.5, 5, 5, 15, 60])
+# includes lengths that do not divide an hour (7, 8, 45) and fractional ones (0.7, 2.5)
+PERIODS = st.sampled_from([1, 2.5, 5, 5, 7, 8, 15, 45, 60, 0.7])
 
 
 @st.composite
@@ -546,10 +556,11 @@ def schedule_entries(draw, stations, max_len=4, empty_ok=True, vacant_ok=True):
     subset = draw(st.lists(st.sampled_from(ids), min_size=1, max_size=len(ids), unique=True))
     L = draw(st.integers(1, max_len))
     rows = {}
+    all_zero = draw(st.integers(0, 7)) == 0  # "stop charging": a non-empty schedule of zeros
     for s in stations:
         if s["id"] in subset:
             lv = allowed_levels(s)
-            rows[s["id"]] = [draw(st.sampled_from(lv + [lv[-1]])) for _ in range(L)]
+            rows[s["id"]] = [0.0] * L if all_zero else [draw(st.sampled_from(lv + [lv[-1]])) for _ in range(L)]
     order = list(draw(st.permutations(sorted(rows))))
     return {"rows": rows, "order": order, "vtype": draw(st.sampled_from(["float", "float", "int", "np", "nparray"]))}
 
@@ -572,7 +583,7 @@ def sorted_schedulers(draw, estimator=True, kinds=("greedy", "rr"), mr=(1,)):
     if k == "rr":
         sch["inc"] = draw(st.sampled_from([0.1, 0.5, 1, 2.5]))
     if estimator and draw(st.integers(0, 2)) == 0:
-        sch["estimator"] = {"up": draw(st.sampled_from([1, 0.5, 2])), "down": draw(st.sampled_from([1, 0.5, 3])), "inc": draw(st.sampled_from([1, 0.5, 2]))}
+        sch["estimator"] = {"up": draw(st.sampled_from([1, 0.5, 2])), "down": draw(st.sampled_from([1, 0.5, 3])), "inc": draw(st.sampled_from([1, 0.5, 2, 0]))}
     return sch
 
 
@@ -629,6 +640,7 @@ def scenarios(
         "scheduler": sch,
         "zs": draw(st.lists(st.sampled_from([0.0, 0.3, -0.3, 1.0, -1.0, 3.0, -3.0]), min_size=1, max_size=6)),
         "store_history": draw(st.booleans()),
+        "queue_preused": draw(st.sampled_from([None, None, None, 50])),
     }
 
 
